@@ -26,7 +26,8 @@ LEVEL_TEXT = ("held on N generated subscription/data schedules for meter, invert
               "duplicates, order and exact values across every hand-over of the per-component streaming task.")
 LEVEL_NOTE = ("fake API channel (backlog kept far below RECEIVER_MAX_SIZE); the start bound (first sample no later than "
               "the first message sent after the request was processed) is only applied to requests after which the "
-              "harness lets the loop go idle; otherwise contiguity from the observed start is asserted")
+              "harness lets the loop go idle; otherwise contiguity from the observed start is asserted"
+              ' Build phase: all 60 metrics, requests differing only in start_time, invalid-metric requests, the actor as wired by _DataPipeline with bursts of up to 130 subscriptions.')
 RULE = ("seeded schedules; distinct = canonical schedule JSON; non-trivial = >=2 subscriptions arriving at different "
         "message indices (i.e. >=1 hand-over while an existing stream is live)")
 REQUIRED_BUCKETS = ["request-for-a-metric-the-component-kind-does-not-have", "requests-that-differ-only-in-start-time",
